@@ -177,6 +177,49 @@ PROPS["C15"] = {
     "run_timeout": {"quick": 900, "thorough": 3000},
 }
 
+PROPS["C01"] = {
+    "level": "proof",
+    "technique": "Lean 4: coset identity for every sampler outcome z in any commutative ring, centring is norm-minimal, sign/verify agree at the bound (extracted operators); trace refinement: the model recomputes each traced signature's bytes exactly from (key, salt, msg, z) and verifies them; independent specification verifier on every signature",
+    "rule": "ops = sign + verify through the public API with an injected replayable generator: 2 keys per variant (8 thorough), messages of length 0, 1, 135, 136, 10000 and random, every signature judged by the library's verify AND by the harness's specification verifier; every 6th signature additionally as a traced op (key polynomials, salt, message, rounded sampler output z) whose signature bytes and verdict the Lean model recomputes exactly; 16-thread shared-key runs; distinct by op line",
+    "exhaustive": {"quick": (False, ""), "thorough": (False, "")},
+    "level_text": "Machine-checked integer core, for every hashed point c and EVERY sampler outcome (z0, z1): with f*G = g*F (mod q) and h = g/f, (s1, s2) = (c + z0 g + z1 G, -(z0 f + z1 F)) satisfies c - s2 h = s1; the centred representative never has larger norm; sign retries iff norm > bound while verify accepts iff norm <= bound (operators re-extracted), so whatever sign returns passes the specification's test that verify computes (C02), after a lossless compression (C07). The floating-point remainder (rounded inverse FFT exact; float norm vs exact norm) is validated per traced signature: the model rebuilds the exact signature bytes from z. Schedules: sign takes &SecretKey, the crate has no interior mutability or globals (translator scan, C15), thread_rng is thread-local; 16-thread shared-key runs are executed as support.",
+    "level_note": "Trusted: Lean kernel + Mathlib ring tactics; the floating-point sampler is a universally quantified parameter (z); its accuracy is checked per trace, not proved; rare retry branches (compression overflow: ~1e-3 per Falcon-1024 signature) are reached only when sampled, the translator additionally pins that the salt is written once.",
+    "trusted_base": TB_COMMON + ["floating-point FFT / ffSampling: a parameter of the theorems, validated per trace"],
+    "assumptions": ["keys satisfy the NTRU relation and h = g/f (C04)"],
+    "not_proved": ["round(ifft(.)) is the exact integer vector and the float norm decides like the exact norm, for all inputs", "list-level instantiation of the coset identity through the NTT evaluation map (the abstract identity + C11 give it; not assembled)"],
+    "release_too": False,
+    "parallel_model": True,
+    "run_timeout": {"quick": 1200, "thorough": 3400},
+}
+
+PROPS["C08"] = {
+    "level": "proof",
+    "technique": "Lean 4 theorems on the signing skeleton with explicit randomness (salt = first 40 draws, independent of message and key, distinct draws give distinct salts/signatures) + translator scan (salt buffer written once, before hashing) + draw-injection runs and un-hooked duplicate statistics",
+    "rule": "ops = sign_salt with an injected generator over combinations of same/different message, key and generator seed (judged: salt = first 40 bytes the generator produced); un-hooked sign_fresh: 400 (thorough 20000) signatures from 8 threads, judged: all salts distinct, no constant byte position; distinct by op line",
+    "exhaustive": {"quick": (False, ""), "thorough": (False, "")},
+    "level_text": "Machine-checked on the model: the salt is the first 40 bytes drawn in the call, a function of the draws alone; different draws give different salts and signatures; source scan: r is filled exactly once before hash_to_point and never written again. NOT decidable by proof: that thread_rng() never repeats (OS entropy + ChaCha12, trusted); collected salts are checked for duplicates on every run as support.",
+    "level_note": "Trusted: the operating system's entropy source and rand's ThreadRng; translator scan of `sign`.",
+    "trusted_base": TB_COMMON + ["rand::thread_rng (OS-seeded ChaCha12, reseeding) is trusted to produce fresh output"],
+    "assumptions": ["thread_rng output does not repeat"],
+    "not_proved": ["freshness of the generator itself"],
+    "release_too": False,
+    "run_timeout": {"quick": 900, "thorough": 3400},
+}
+
+PROPS["C10"] = {
+    "level": "proof",
+    "technique": "Lean 4: LDL* reconstruction and the one-level nearest-plane norm identity over an arbitrary field (the algebra that makes the output spherical) + per-signature numerical evaluation of the full-depth identity ||s||^2 = sigma^2 * sum((mu-z)/sigma_leaf)^2 from per-leaf traces of the real signer",
+    "rule": "ops = sign_leaves: signatures with an injected generator, 2 keys x 60 per variant (thorough 4 x 1500); per signature the exact integer ||(s1,s2)||^2 recomputed from the signature bytes and public key by the specification arithmetic is compared (rel 1e-6) with sigma^2 * sum over the 2n leaf samples of ((mu - z)/sigma_leaf)^2 from the trace; leaf widths in [sigma_min, sigma_max]; norm within the bound; distinct by op line",
+    "exhaustive": {"quick": (False, ""), "thorough": (False, "")},
+    "level_text": "Machine-checked over any field: the 2x2 LDL* as ffldl computes it reconstructs the Gram block; one nearest-plane level turns the quadratic form into (t0'-z0)^2 d00 + (t1-z1)^2 d11 for ANY leaf outputs; normalised leaves sigma/sqrt(d) turn that into sigma^2 times the sum of squared normalised deviations. The full-depth identity is evaluated on every traced signature and is a sharp check of the Gram/LDL/normalise/ffSampling chain (a wrong sign, a skipped normalisation or a wrong leaf breaks it). NOT decided: statistical closeness of the law to the spherical discrete Gaussian (Klein/GPV), i.e. the leakage statement itself.",
+    "level_note": "Trusted: Lean kernel + Mathlib field_simp/ring; floating-point evaluation of the identity (tolerance 1e-6, observed 1e-12). The induction over the tree (split/merge isometries) is not formalised.",
+    "trusted_base": TB_COMMON + ["f64 arithmetic in the trace evaluation"],
+    "assumptions": [],
+    "not_proved": ["the distributional statement (mean zero, variance sigma^2 in every direction)", "the identity at full depth as a theorem"],
+    "release_too": False,
+    "run_timeout": {"quick": 900, "thorough": 3400},
+}
+
 # properties not (yet) claimed, with the reason shown in MANIFEST.not_applicable
 NOT_YET = {k: "check not built yet in this session (planned in DESIGN.md §7/§8); not claimed until its check passes" for k in
-           ["C01", "C08", "C10", "C13", "C16"]}
+           ["C13", "C16"]}
